@@ -82,6 +82,20 @@ class Property:
         return []
 
 
+def stratified(prefix, factory, strata, n_total, ctx, share=4):
+    """Searches [(name, strategy, n)] giving every stratum its own Hypothesis run.
+
+    A categorical choice drawn with sampled_from inside one big composite is served very unevenly by Hypothesis'
+    mutation-based generation (measured: 5 vs 39 cases for two values of one parameter in 4000 examples), so a class that
+    matters must not depend on that. Every stratum is searched by 1/share of the shards (runs of a handful of examples
+    would spend much of their budget on the minimal first example, which is the same in every shard)."""
+    strata = list(strata)
+    parts = max(1, ctx.nshards // share)
+    per = max(4, n_total // max(1, len(strata)) // parts)
+    return [(f"{prefix}:{s}", factory(s), per) for i, s in enumerate(strata)
+            if ctx.nshards < share or (ctx.shard - i) % share == 0]
+
+
 def canon(case):
     return json.dumps(case, sort_keys=True, separators=(',', ':'), default=str)
 
